@@ -489,7 +489,9 @@ fn decode_chunked(cfg: &Cfg, stream: &[u8]) -> String {
         h = (h ^ *b as u64).wrapping_mul(0x100000001b3);
     }
     let mut r = Rng::new(h);
-    let sizes: Vec<usize> = match r.below(6) {
+    // long streams only with few chunks: the model's read loop appends chunk by chunk (quadratic)
+    let pickk = if stream.len() > 4096 { 2 + r.below(2) } else { r.below(6) };
+    let sizes: Vec<usize> = match pickk {
         0 => vec![1],
         1 => vec![8, 1, 1, 3],                       // header split after 8 bytes
         2 => vec![9, 1, 1_000_000],                  // header alone, one body byte, the rest incl. the next frame
@@ -497,6 +499,8 @@ fn decode_chunked(cfg: &Cfg, stream: &[u8]) -> String {
         4 => (0..16).map(|_| r.range(1, 5) as usize).collect(),
         _ => (0..16).map(|_| r.range(1, 64) as usize).collect(),
     };
+    // sizes beyond the stream's length mean the same as the length (and keep the model's unary numbers small)
+    let sizes: Vec<usize> = sizes.into_iter().map(|x| x.min(stream.len().max(1))).collect();
     let sch = sizes.iter().map(|x| x.to_string()).collect::<Vec<_>>().join(".");
     let mut reader = Chunked { data: stream, pos: 0, sizes, i: 0, chunk_left: 0 };
     let first = decode_reader(cfg, &mut reader);
@@ -977,6 +981,16 @@ fn run_alone(exe: &std::path::Path, infile: &str, idx: usize, timeout_s: u64) ->
     }
 }
 
+/// After this many inputs have been confirmed as not terminating the run stops waiting for more of them:
+/// the remaining inputs are reported not-run (the check fails on the confirmed ones anyway), so that a tree
+/// in which a whole family of inputs hangs still gives its verdict within minutes.
+const MAX_CONFIRMED_HANGS: usize = 5;
+static CONFIRMED_HANGS: std::sync::atomic::AtomicUsize = std::sync::atomic::AtomicUsize::new(0);
+fn too_many_hangs() -> bool {
+    CONFIRMED_HANGS.load(std::sync::atomic::Ordering::SeqCst) >= MAX_CONFIRMED_HANGS
+}
+const SKIPPED: &str = "notrun env-skipped-after-confirmed-hangs m=0 t=0 s=-";
+
 fn run_in_children(cases: &[String], infile: &str, per_input_timeout_s: u64, workers: usize) -> Vec<String> {
     std::fs::write(infile, cases.join("\n") + "\n").unwrap();
     let exe = std::env::current_exe().unwrap();
@@ -995,6 +1009,12 @@ fn run_in_children(cases: &[String], infile: &str, per_input_timeout_s: u64, wor
             let mut next = lo;
             let mut start_failures = 0;
             while next < hi {
+                if too_many_hangs() {
+                    for i in next..hi {
+                        res.push((i, SKIPPED.into()));
+                    }
+                    break;
+                }
                 let mut ch = match Child::start(&exe, &infile, next, hi, false) {
                     Some(c) => c,
                     None => {
@@ -1016,14 +1036,24 @@ fn run_in_children(cases: &[String], infile: &str, per_input_timeout_s: u64, wor
                                 res.push((i, r.to_string()));
                                 next = i + 1;
                             }
-                            if next >= hi {
+                            if next >= hi || too_many_hangs() {
                                 break;
                             }
                         }
                         Got::Timeout | Got::Stall | Got::Died(_) => {
                             ch.stop();
                             if next < hi {
-                                res.push((next, run_alone(&exe, &infile, next, 3 * per_input_timeout_s)));
+                                let r = if too_many_hangs() {
+                                    SKIPPED.to_string()
+                                } else {
+                                    // alone in a fresh child; the limit is CPU time of that child (the slowest
+                                    // legitimate input takes 0.07 s at load 50: more than 100 x margin)
+                                    run_alone(&exe, &infile, next, per_input_timeout_s)
+                                };
+                                if r.starts_with("timeout") {
+                                    CONFIRMED_HANGS.fetch_add(1, std::sync::atomic::Ordering::SeqCst);
+                                }
+                                res.push((next, r));
                                 next += 1;
                             }
                             break;
@@ -1083,6 +1113,72 @@ fn custom_ty(s: &str) -> Vec<u8> {
     v
 }
 const FT0: &str = "rl:-,mid:0";
+
+/// kind V: typed column values whose element count is inflated (2^16, 2^24, i32::MAX) with nothing, a few
+/// elements, or (for 2^16) all the elements behind it: list / set / map / nested list cells and vectors
+/// with 65535 dimensions.  The typed targets (Row over CqlValue, Vec<Option<i32>>) must refuse or accept
+/// them with allocations in proportion to the bytes that are there.
+fn inflated_count_cases() -> Vec<String> {
+    let m = "org.apache.cassandra.db.marshal.";
+    let types: Vec<(&str, Vec<u8>, usize)> = vec![
+        // (name, binary type, 4-byte-length-prefixed items per element)
+        ("list<int>", [be16(0x20), be16(9)].concat(), 1),
+        ("set<int>", [be16(0x22), be16(9)].concat(), 1),
+        ("map<int,int>", [be16(0x21), be16(9), be16(9)].concat(), 2),
+        ("list<text>", [be16(0x20), be16(0x0d)].concat(), 1),
+        ("list<list<int>>", [be16(0x20), be16(0x20), be16(9)].concat(), 1),
+    ];
+    let mut out = vec![];
+    let mut push = |ty: &[u8], cell: &[u8]| {
+        let mut f = rows_with_type(ty);
+        let n = f.len();
+        f[n - 4..].copy_from_slice(&be32(1));
+        f.extend_from_slice(&be32(cell.len() as i32));
+        f.extend_from_slice(cell);
+        let l = (f.len() - 9) as u32;
+        f[5..9].copy_from_slice(&l.to_be_bytes());
+        for mode in ["2n", "1n"] {
+            out.push(format!("V {} {} {}", FT0, mode, hex_bytes(&f)));
+        }
+    };
+    for (name, ty, per) in &types {
+        for count in [1i32 << 16, 1 << 24, i32::MAX] {
+            let item: Vec<u8> = if *name == "list<list<int>>" {
+                // an inner list whose own count is inflated too
+                [be32(4).to_vec(), be32(count).to_vec()].concat()
+            } else {
+                [be32(4).to_vec(), be32(7).to_vec()].concat()
+            };
+            for present in [0usize, 1, 8] {
+                let mut cell = be32(count).to_vec();
+                for _ in 0..present * per {
+                    cell.extend_from_slice(&item);
+                }
+                push(ty, &cell);
+            }
+            // the count alone, cut inside (3 of its 4 bytes)
+            push(ty, &be32(count)[..3]);
+        }
+        if *per == 1 && *name != "list<list<int>>" {
+            // 2^16 elements really there (512 KiB of cell)
+            let mut cell = be32(1 << 16).to_vec();
+            for _ in 0..(1 << 16) {
+                cell.extend_from_slice(&be32(4));
+                cell.extend_from_slice(&be32(7));
+            }
+            push(ty, &cell);
+        }
+    }
+    // vectors: the element count is the dimension in the type string
+    for (elem, cell) in [
+        ("Int32Type", vec![]), ("Int32Type", vec![0, 0, 0, 1]), ("Int32Type", vec![0, 0, 0, 1, 0, 0]),
+        ("UTF8Type", vec![]), ("UTF8Type", vec![1, 97]), ("UTF8Type", vec![1, 97, 5, 98]),
+    ] {
+        let ty = custom_ty(&format!("{m}VectorType({m}{elem}, 65535)"));
+        push(&ty, &cell);
+    }
+    out
+}
 
 /// the inputs that crashed / hung the decoders before the repairs (DESIGN §8 F3, F4, F6 and the
 /// custom-type / lz4 findings of this check): reverting a repair makes these `abort`/`timeout`
@@ -1414,6 +1510,7 @@ fn gen_cases(a: &Args) -> Vec<String> {
     let mut r = Rng::new(a.seed);
     let mut cases = known_reproducers();
     cases.extend(custom_type_cases(&mut r));
+    cases.extend(inflated_count_cases());
     // (a) well-formed frames from the extracted encoder
     let nbase = (a.n / 60).max(50);
     let drv = std::env::var("VERIF_C08_DRIVER").unwrap_or_else(|_| concat!(env!("CARGO_MANIFEST_DIR"), "/../ocaml/c08/driver").into()); // checks/c08.py passes <ROOT>/ocaml/c08/driver
